@@ -468,6 +468,9 @@ class StdCtx(Ctx):
            and recv[1][4] == [('path', ['String', 'from'])] and recv[1][1][0] == 'mcall' and recv[1][1][2] == 'split' and len(recv[1][1][4]) == 1:
             s, t = self.tx(recv[1][1][1], env); a, at = self.tx(recv[1][1][4][0], env)
             if t == 'str' and at == 'str': return f'List.map Value.str (Seq.splitOn {self.paren(a)} {self.paren(s)})', 'values'
+        if name in F64_METHODS and not args:
+            s, t = self.tx(recv, env)
+            if t == 'f64': return f'{F64_METHODS[name]} {self.paren(s)}', 'f64'
         if name == 'floor' and not args:
             s, t = self.tx(recv, env)
             if t == 'f64': return f'NumX.floor {self.paren(s)}', 'f64'
@@ -545,6 +548,32 @@ def strip_macros(text):
             text = cut(text, m.start(), '(', ')')
     return text
 
+def expand_math_macro(text):
+    """`macro_rules! generate_std_math_functions { ($($func_name:ident $std_func:ident),*) => {$( ITEM )*}; }` and its one invocation
+    `generate_std_math_functions!(a b, c d, …);`: the ITEM once per pair, `$func_name` / `$std_func` replaced (macro_rules substitution of two identifiers).
+    Returns (text of the generated functions, [(func_name, std_func)])"""
+    m = re.search(r'macro_rules!\s*generate_std_math_functions\s*\{\s*\(\s*\$\(\s*\$func_name\s*:\s*ident\s+\$std_func\s*:\s*ident\s*\)\s*,\s*\*\s*\)\s*=>\s*\{\s*\$\(', text)
+    if not m: raise Unrecognised('generate_std_math_functions: rule shape')
+    i = m.end(); d = 1; j = i
+    while d > 0:
+        if j >= len(text): raise Unrecognised('unbalanced macro')
+        if text[j] == '(': d += 1
+        elif text[j] == ')': d -= 1
+        j += 1
+    item = text[i:j - 1]
+    if not re.match(r'\s*\*\s*\}\s*;?\s*\}', text[j:]): raise Unrecognised('generate_std_math_functions: more than one rule / repetition')
+    inv = re.findall(r'\bgenerate_std_math_functions!\s*\(([^()]*)\)\s*;', text)
+    if len(inv) != 1: raise Unrecognised('generate_std_math_functions: invocations')
+    pairs = []
+    for part in inv[0].split(','):
+        w = part.split()
+        if len(w) != 2 or not all(re.fullmatch(r'[A-Za-z_]\w*', x) for x in w): raise Unrecognised('generate_std_math_functions: argument ' + part.strip())
+        pairs.append((w[0], w[1]))
+    if '$' in item.replace('$func_name', '').replace('$std_func', ''): raise Unrecognised('generate_std_math_functions: other metavariables')
+    return '\n'.join(item.replace('$func_name', a).replace('$std_func', b) for a, b in pairs), pairs
+
+F64_METHODS = {'abs': 'NumX.abs', 'atan': 'NumX.atan', 'cos': 'NumX.cos', 'exp': 'NumX.exp', 'fract': 'NumX.fract', 'ln': 'NumX.ln', 'round': 'NumX.round', 'sin': 'NumX.sin', 'sqrt': 'NumX.sqrt'}
+
 STRING = [('chr', 'chr'), ('ord', 'ord'), ('split', 'split'), ('lowercase', 'lowercase'), ('uppercase', 'uppercase'), ('same_text', 'same_text'), ('trim', 'trim'), ('trim_left', 'trim_left'), ('trim_right', 'trim_right')]
 MATH = [('even', 'even', False), ('odd', 'odd', False), ('pow', 'pow', False), ('int_to_hex', 'int_to_hex', False)]
 
@@ -562,7 +591,10 @@ def gen_stdlib(srcdir):
     fns = {}
     for rust, lean, off in HELPERS:
         f = find_fn(mod, rust); fns[rust] = (lean + (' off' if off else ''), [t for _, t in f['params']], rs2lean.rust_type(f['ret'], None))
-    mth = strip_macros(strip_tests(open(os.path.join(srcdir, 'stdlib', 'math.rs')).read()))
+    mth_raw = strip_tests(open(os.path.join(srcdir, 'stdlib', 'math.rs')).read())
+    gen_text, gen_pairs = expand_math_macro(mth_raw)
+    mth = strip_macros(mth_raw)
+    if any(re.search(r'\bfn\s+' + a + r'\b', mth) for a, _ in gen_pairs): raise Unrecognised('a generated maths function is also defined by hand')
     fns['is_even'] = ('is_even', ['f64'], 'bool')
     for rust, lean, off in BUILTINS + MATH: fns[rust] = (lean + (' off' if off else ''), ['values'], ('res', 'value'))
     c = StdCtx(RERR, 'NativeError', selfty=None, module_fns=fns)
@@ -577,6 +609,9 @@ def gen_stdlib(srcdir):
     d, aux = c.pure_fn(find_fn(mth, 'is_even'), 'is_even'); out += aux + ['/-- `is_even` (src/stdlib/math.rs) -/\n' + d + '\n']
     for rust, lean, off in MATH:
         d, aux = c.pure_fn(find_fn(mth, rust), lean); out += aux + [f'/-- `{rust}` (src/stdlib/math.rs) -/\n' + d + '\n']
+    for rust, std in gen_pairs:
+        fns[rust] = (rust, ['values'], ('res', 'value'))
+        d, aux = c.pure_fn(find_fn(gen_text, rust), rust); out += aux + [f'/-- `{rust}` (src/stdlib/math.rs, generated by `generate_std_math_functions!({rust} {std})`) -/\n' + d + '\n']
     stg = strip_tests(open(os.path.join(srcdir, 'stdlib', 'string.rs')).read())
     LEAN_TYPE['casemap'] = 'Stdlib.CaseMap'
     for rust, lean in STRING:
